@@ -10,6 +10,8 @@
 import Krp.Lemmas.HubSpec
 import Krp.Lemmas.Still
 import Krp.Lemmas.RateStep
+import Krp.Lemmas.RateHubG
+import Krp.Lemmas.RatePending
 namespace Krp
 open HubSt
 
@@ -558,6 +560,282 @@ theorem C04_steady_history (s : Sys) (l : List Step) (hst : Steady s l)
       (wf.2.2.2.1.trans shub) r1 r2 hq
     refine ⟨rb', rs', h1, Nat.le_trans hb1 h2, Nat.le_trans hs1 h3, fun bal => ?_⟩
     exact ⟨C04_passive_value_mono _ _ _ (Nat.le_trans hb1 h2), C04_passive_value_mono _ _ _ (Nat.le_trans hs1 h3)⟩
+
+/-! ### Every minting / redeeming entry point, with a slash still unrecognised
+
+  Bond, BondForStSei and the two token hooks (unbond, convert — either token) each begin with the
+  hub's own slashing check. Whatever that check recognises, the handler prices with the pools it
+  produces — the pools the State query *already reported* before the call. So, slash pending or
+  not, measured against the rates reported before the call: once the mints and burns the handler
+  emits have executed, neither rate is lower (or the token has no claims left). -/
+
+theorem C04_pricing_entry_any_state (h h' : HubSt) (e : HubEnv) (sender : Addr) (funds : List (Denom × Nat))
+    (m : HubMsg) (ms : List Msg) (hx : hubExec h e sender funds m = .ok (h', ms))
+    (htr : Trg (.wasm sender hubA (.hub m) funds) = true)
+    (hself : e.self = hubA) (hb : h.bsei = some bseiA) (hs : h.stsei = some stseiA)
+    (bs ss : Nat) (hbs : e.supplyOf bseiA = .ok bs) (hss : e.supplyOf stseiA = .ok ss)
+    (st0 : HubSt) (hst0 : h.actualState e = .ok st0)
+    (hd : e.delegations ≠ []) (hz : h.bBond + h.sBond ≠ 0)
+    (backB : Backed st0.bBond bs h.reqB) (backS : Backed st0.sBond ss h.reqS) :
+    -- the reported rates before the call: st0's
+    st0.bRate = rateOf st0.bBond bs h.reqB ∧ st0.sRate = rateOf st0.sBond ss h.reqS ∧
+    -- ... and for every supply the emitted mints and burns lead to
+    (∀ S', S' + burnsBy bseiA ms = bs + mintsTo bseiA ms →
+        S' + h'.reqB = 0 ∨ st0.bRate ≤ rateOf h'.bBond S' h'.reqB) ∧
+    (∀ S', S' + burnsBy stseiA ms = ss + mintsTo stseiA ms →
+        S' + h'.reqS = 0 ∨ st0.sRate ≤ rateOf h'.sBond S' h'.reqS) := by
+  have f := checked_state h st0 e hst0 st0 hst0 hb hs bs ss hbs hss hd hz
+  have trb : TR (rateOf st0.bBond bs h.reqB) st0.bBond bs h.reqB 0 0 := by
+    unfold TR; simpa using rateOf_mul_le st0.bBond bs h.reqB backB
+  have trs : TR (rateOf st0.sBond ss h.reqS) st0.sBond ss h.reqS 0 0 := by
+    unfold TR; simpa using rateOf_mul_le st0.sBond ss h.reqS backS
+  have fl := hub_flowG h h' e sender funds m ms hx htr hself hb hs bs ss hbs hss st0 hst0 hd hz trb trs
+  have key : ∀ (r B S R M U S' : Nat), TR r B S R M U → S' + U = S + M → S' + R = 0 ∨ r ≤ rateOf B S' R := by
+    intro r B S R M U S' tr hS
+    by_cases hr : r = 0
+    · right; rw [hr]; exact Nat.zero_le _
+    · apply C04_rate_after _ _ _ _ (Nat.pos_of_ne_zero hr)
+      unfold TR at tr
+      rw [← hS, show S' + U + R = (S' + R) + U by omega, Nat.mul_add] at tr
+      omega
+  refine ⟨f.2.2.2.2.1, f.2.2.2.2.2.1, fun S' hS => ?_, fun S' hS => ?_⟩
+  · rw [f.2.2.2.2.1]; exact key _ _ _ _ _ _ S' fl.1 hS
+  · rw [f.2.2.2.2.2.1]; exact key _ _ _ _ _ _ S' fl.2 hS
+
+/-! Non-vacuity of `C04_pricing_entry_any_state`: a Bond arriving while a slash of one half is still
+    unrecognised (books 6 + 4, delegated 5) is accepted; the hypotheses are met with `st0` = pools 3 + 2. -/
+example : ∃ r, hubExec { (default : HubSt) with bBond := 6, sBond := 4, thr := 1000000000000000000, bRate := 1000000000000000000, sRate := 1000000000000000000, bsei := some bseiA, stsei := some stseiA, dispatcher := some dispA, registry := some regA }
+    { self := hubA, now := 0, hubBalance := 0, delegations := [(201, 5)], supplyOf := fun _ => .ok 5, validatorsOf := fun _ => .ok [(201, 5)] } 5 [(0, 100)] .bond = .ok r := ⟨_, rfl⟩
+
+/-! ### A Bond arriving while a slash is still unrecognised — the whole transaction
+
+  The composed theorem above starts from a state with no slash pending. This one starts from *any*
+  state: a Bond or BondForStSei is the first message of the transaction, its handler recognises
+  whatever slash is pending and prices with the pools the State query already reported, and from
+  there on the invariant of the composed theorem takes over (relative to those reported pools). So
+  a bond by anyone, slash pending or not, leaves neither *reported* rate lower. -/
+
+private theorem actualState_env_congr (h : HubSt) (e e' : HubEnv) (hd : e.delegations = e'.delegations)
+    (hs : e.supplyOf = e'.supplyOf) : h.actualState e = h.actualState e' := by
+  unfold actualState bSupplyQ sSupplyQ
+  rw [hd, hs]
+
+theorem C04_bond_tx_any_state (s s' : Sys) (sender : Addr) (funds : List (Denom × Nat)) (hm : HubMsg)
+    (hp : hm = .bond ∨ hm = .bondForStSei) (c : ChainOK s)
+    (btok : s.hub.bsei = some bseiA) (stok : s.hub.stsei = some stseiA)
+    (bwf : s.bsei.WF) (swf : s.stsei.WF) (bhub : s.bsei.hub = hubA) (shub : s.stsei.hub = hubA)
+    (hd : s.delegationsOf hubA ≠ []) (hz : s.hub.bBond + s.hub.sBond ≠ 0)
+    (st0 : HubSt) (hst0 : s.hub.actualState s.hubEnv = .ok st0)
+    (hz0 : st0.bBond + st0.sBond ≠ 0)
+    (backB : Backed st0.bBond s.bsei.supply s.hub.reqB) (backS : Backed st0.sBond s.stsei.supply s.hub.reqS)
+    (hx : Sys.run 400 s [.wasm sender hubA (.hub hm) funds] = .ok s') :
+    (s'.bsei.supply + s'.hub.reqB = 0 ∨ st0.bRate ≤ rateOf s'.hub.bBond s'.bsei.supply s'.hub.reqB) ∧
+    (s'.stsei.supply + s'.hub.reqS = 0 ∨ st0.sRate ≤ rateOf s'.hub.sBond s'.stsei.supply s'.hub.reqS) ∧
+    s'.hub.bBond + s'.hub.sBond ≤ totalDelegated s' := by
+  simp only [Sys.run] at hx
+  split at hx
+  · cases hx
+  · rename_i s1' subs h1
+    have ch := handle_wasm_chain s s1' _ _ _ _ subs h1
+    cases handle_touch s s1' _ subs h1 with
+    | none h hm' _ _ =>
+      rcases hm' with hm' | ⟨a, b, c', d, heq, ht⟩
+      · exact absurd rfl (hm' _ _ _ _)
+      · injection heq with _ e2 _ _
+        rcases ht with ht | ht <;> (rw [ht] at e2; cases e2)
+    | hub s1 sender' funds' hm' heq h1' _ hc hx' bb t r dd g =>
+      injection heq with e1 _ e3 e4
+      injection e3 with e3
+      subst e1; subst e3; subst e4
+      have c1 : ChainOK s1 := ⟨fun w hw => by rw [hc.1]; exact c.outside w hw,
+        fun w hw => by rw [hc.1]; rw [hc.2.1] at hw; exact c.unset w hw⟩
+      have hT : ((s1.hubEnv.delegations).map (·.2)).sum = totalDelegated s := by
+        rw [delegations_sum s1 c1]; unfold totalDelegated; rw [hc.1]
+      have hdel : s1.hubEnv.delegations = s.hubEnv.delegations := by
+        show s1.delegationsOf hubA = s.delegationsOf hubA
+        unfold Sys.delegationsOf; rw [hc.1, hc.2.1]
+      have hsup : s1.hubEnv.supplyOf = s.hubEnv.supplyOf := by
+        funext a
+        show s1.supplyOf a = s.supplyOf a
+        unfold Sys.supplyOf; rw [h1'.bsei, h1'.stsei]
+      have hst1 : s.hub.actualState s1.hubEnv = .ok st0 := by
+        rw [actualState_env_congr s.hub s1.hubEnv s.hubEnv hdel hsup]; exact hst0
+      have hd1 : s1.hubEnv.delegations ≠ [] := by rw [hdel]; exact hd
+      have hbs : s1.hubEnv.supplyOf bseiA = .ok s.bsei.supply := by
+        show s1.supplyOf bseiA = _
+        unfold Sys.supplyOf; rw [if_pos rfl, h1'.bsei]
+      have hss : s1.hubEnv.supplyOf stseiA = .ok s.stsei.supply := by
+        show s1.supplyOf stseiA = _
+        unfold Sys.supplyOf; rw [if_neg (by decide), if_pos rfl, h1'.stsei]
+      -- the virtual start: the state a CheckSlashing would have left
+      let sV : Sys := { s with hub := st0 }
+      have sb := (actualState_spec s.hub st0 s1.hubEnv hst1).1
+      have f := checked_state s.hub st0 s1.hubEnv hst1 st0 hst1 btok stok _ _ hbs hss hd1 hz
+      have rbV : rb0 sV = rateOf st0.bBond s.bsei.supply s.hub.reqB := by
+        show rateOf st0.bBond s.bsei.supply st0.reqB = _; rw [sb.reqB]
+      have rsV : rs0 sV = rateOf st0.sBond s.stsei.supply s.hub.reqS := by
+        show rateOf st0.sBond s.stsei.supply st0.reqS = _; rw [sb.reqS]
+      have trb : TR (rateOf st0.bBond s.bsei.supply s.hub.reqB) st0.bBond s.bsei.supply s.hub.reqB 0 0 := by
+        unfold TR; simpa using rateOf_mul_le st0.bBond s.bsei.supply s.hub.reqB backB
+      have trs : TR (rateOf st0.sBond s.stsei.supply s.hub.reqS) st0.sBond s.stsei.supply s.hub.reqS 0 0 := by
+        unfold TR; simpa using rateOf_mul_le st0.sBond s.stsei.supply s.hub.reqS backS
+      have htr : Trg (.wasm sender hubA (.hub hm) funds) = true := by
+        rcases hp with hp | hp <;> subst hp <;> rfl
+      have fl := hub_flowG s.hub s1'.hub s1.hubEnv sender funds hm subs hx' htr rfl btok stok _ _ hbs hss
+        st0 hst1 hd1 hz trb trs
+      have act : st0.bBond + st0.sBond ≤ totalDelegated s := by
+        have := C02_books_le_delegated s.hub st0 s1.hubEnv hst1 (Or.inl hd1)
+        rw [hT] at this; exact this
+      have cok : ChainOK s1' := ⟨fun w hw => by rw [ch.1]; exact c.outside w hw,
+        fun w hw => by rw [ch.1]; rw [ch.2] at hw; exact c.unset w hw⟩
+      have tot : totalDelegated s1' = totalDelegated s := by unfold totalDelegated; rw [ch.1]
+      have book : BookInv s1' (subs ++ []) := by
+        refine ⟨cok, ?_⟩
+        rw [tot]
+        rcases hp with hp | hp <;> subst hp
+        · simp only [hubExec] at hx'; split at hx'
+          · cases hx'
+          · obtain ⟨p, st, mint, dl, tok, _, hst, _, _, hdl, _, hh, hms⟩ := bondB_spec _ _ _ _ _ _ hx'
+            have est : st = st0 := by rw [hst1] at hst; injection hst with h1; exact h1.symm
+            have ds := delegs_stake s.hub s1.hubEnv p dl rfl hdl
+            refine ⟨dl, [tokMsg s1.hubEnv.self tok (.mint sender mint)] ++ [], by rw [hms]; simp, ds.1,
+              (by intro y hy; simp at hy; subst hy; rfl), ?_⟩
+            rw [hh, ds.2.1, ds.2.2, est]; simp only []; omega
+        · simp only [hubExec] at hx'; split at hx'
+          · cases hx'
+          · obtain ⟨p, st, dl, tok, _, hst, _, hdl, _, hh, hms⟩ := bondS_spec _ _ _ _ _ _ hx'
+            have est : st = st0 := by rw [hst1] at hst; injection hst with h1; exact h1.symm
+            have ds := delegs_stake s.hub s1.hubEnv p dl rfl hdl
+            refine ⟨dl, [tokMsg s1.hubEnv.self tok (.mint sender (decDiv p st.sRate))] ++ [], by rw [hms]; simp, ds.1,
+              (by intro y hy; simp at hy; subst hy; rfl), ?_⟩
+            rw [hh, ds.2.1, ds.2.2, est]; simp only []; omega
+      obtain ⟨a1, a2, a3, a4, a5, a6⟩ := static_step s s1' _ subs h1 btok stok bwf swf bhub shub
+      have inv1 : RInv sV s1' (subs ++ []) := by
+        refine ⟨book, a1, a2, a3, a4, a5, a6, ?_, ?_, Or.inr ?_⟩
+        · rw [rbV, bb, List.append_nil]; exact fl.1
+        · rw [rsV, t, List.append_nil]; exact fl.2
+        · rw [List.append_nil]; exact hubExec_noTrg _ _ _ _ _ _ _ hx'
+      have fin := run_inv2 (RInv sV) (fun a b r a' sb' h hx'' => RInv.step sV a a' b r sb' hz0 h hx'') 399 s1' _ s' inv1 hx
+      have tb := fin.trb
+      have ts := fin.trs
+      unfold TR at tb ts
+      simp only [mintsTo, burnsBy, Nat.add_zero, Nat.mul_zero] at tb ts
+      rw [rbV, ← f.2.2.2.2.1] at tb
+      rw [rsV, ← f.2.2.2.2.2.1] at ts
+      refine ⟨?_, ?_, fin.book.drained⟩
+      · by_cases hr : st0.bRate = 0
+        · right; rw [hr]; exact Nat.zero_le _
+        · exact C04_rate_after _ _ _ _ (Nat.pos_of_ne_zero hr) tb
+      · by_cases hr : st0.sRate = 0
+        · right; rw [hr]; exact Nat.zero_le _
+        · exact C04_rate_after _ _ _ _ (Nat.pos_of_ne_zero hr) ts
+    | bsei s1 sender' funds' tm heq _ _ _ _ _ _ _ => injection heq with _ e2 _ _; cases e2
+    | stsei blk sender' funds' tm heq _ _ _ _ _ _ => injection heq with _ e2 _ _; cases e2
+    | reward s1 sender' funds' rm heq _ _ _ _ _ _ _ _ _ => injection heq with _ e2 _ _; cases e2
+    | disp env sender' funds' dm heq _ _ _ _ _ _ _ _ => injection heq with _ e2 _ _; cases e2
+    | reg s1 sender' funds' rm heq _ _ _ _ _ _ _ _ _ => injection heq with _ e2 _ _; cases e2
+
+/-! ### Unbond and convert arriving while a slash is still unrecognised — the whole transaction
+
+  An unbond or convert is a token `Send` (or `SendFrom`) to the hub: the token moves the balance,
+  tells the reward contract (bSei), and calls the hub's hook. Until the hook runs, everything handled
+  is still: pools, requests, supplies and delegations are those of the start, so the hook's own
+  slashing check produces the pools the State query reported at the start (`Lemmas/RatePending`:
+  `PInv`, `trigger_establishes`, `pending_step`). From there the invariant of the composed theorem
+  takes over. So, slash pending or not, no unbond or convert — of either token, by anyone — leaves a
+  *reported* rate lower. -/
+
+private theorem reported_conclusion (st0 : HubSt) (s' : Sys)
+    (h : st0.bRate * (s'.bsei.supply + s'.hub.reqB) ≤ s'.hub.bBond * D ∧
+      st0.sRate * (s'.stsei.supply + s'.hub.reqS) ≤ s'.hub.sBond * D ∧
+      s'.hub.bBond + s'.hub.sBond ≤ totalDelegated s') :
+    (s'.bsei.supply + s'.hub.reqB = 0 ∨ st0.bRate ≤ rateOf s'.hub.bBond s'.bsei.supply s'.hub.reqB) ∧
+    (s'.stsei.supply + s'.hub.reqS = 0 ∨ st0.sRate ≤ rateOf s'.hub.sBond s'.stsei.supply s'.hub.reqS) ∧
+    s'.hub.bBond + s'.hub.sBond ≤ totalDelegated s' := by
+  refine ⟨?_, ?_, h.2.2⟩
+  · by_cases hr : st0.bRate = 0
+    · right; rw [hr]; exact Nat.zero_le _
+    · exact C04_rate_after _ _ _ _ (Nat.pos_of_ne_zero hr) h.1
+  · by_cases hr : st0.sRate = 0
+    · right; rw [hr]; exact Nat.zero_le _
+    · exact C04_rate_after _ _ _ _ (Nat.pos_of_ne_zero hr) h.2.1
+
+/-- every minting / redeeming hub entry point as the top-level message (Bond, BondForStSei, and the
+    hook itself when a token is the sender), from any state -/
+theorem C04_trigger_tx_any_state (s s' : Sys) (sender : Addr) (funds : List (Denom × Nat)) (hm : HubMsg)
+    (hp : IsTrigHub hm) (c : ChainOK s)
+    (btok : s.hub.bsei = some bseiA) (stok : s.hub.stsei = some stseiA)
+    (bwf : s.bsei.WF) (swf : s.stsei.WF) (bhub : s.bsei.hub = hubA) (shub : s.stsei.hub = hubA)
+    (hd : s.delegationsOf hubA ≠ []) (hz : s.hub.bBond + s.hub.sBond ≠ 0)
+    (st0 : HubSt) (hst0 : s.hub.actualState s.hubEnv = .ok st0)
+    (hz0 : st0.bBond + st0.sBond ≠ 0)
+    (backB : Backed st0.bBond s.bsei.supply s.hub.reqB) (backS : Backed st0.sBond s.stsei.supply s.hub.reqS)
+    (hx : Sys.run 400 s [.wasm sender hubA (.hub hm) funds] = .ok s') :
+    (s'.bsei.supply + s'.hub.reqB = 0 ∨ st0.bRate ≤ rateOf s'.hub.bBond s'.bsei.supply s'.hub.reqB) ∧
+    (s'.stsei.supply + s'.hub.reqS = 0 ∨ st0.sRate ≤ rateOf s'.hub.sBond s'.stsei.supply s'.hub.reqS) ∧
+    s'.hub.bBond + s'.hub.sBond ≤ totalDelegated s' := by
+  have inv : PInv s s [.wasm sender hubA (.hub hm) funds] :=
+    ⟨c, SamePools.refl s, btok, stok, bwf, swf, bhub, shub, [], sender, hm, funds, rfl, AllStill.nil, hp⟩
+  exact reported_conclusion st0 s' (pending_run s st0 hst0 btok stok hd hz hz0 backB backS 400 s _ s' inv hx)
+
+/-- **unbond and convert of either token, from any state** -/
+theorem C04_unbond_convert_tx_any_state (s s' : Sys) (sender tokA : Addr) (funds : List (Denom × Nat)) (tm : TokMsg)
+    (htok : tokA = bseiA ∨ tokA = stseiA) (hsend : sendsToHub hubA tm = true) (c : ChainOK s)
+    (btok : s.hub.bsei = some bseiA) (stok : s.hub.stsei = some stseiA)
+    (bwf : s.bsei.WF) (swf : s.stsei.WF) (bhub : s.bsei.hub = hubA) (shub : s.stsei.hub = hubA)
+    (hd : s.delegationsOf hubA ≠ []) (hz : s.hub.bBond + s.hub.sBond ≠ 0)
+    (st0 : HubSt) (hst0 : s.hub.actualState s.hubEnv = .ok st0)
+    (hz0 : st0.bBond + st0.sBond ≠ 0)
+    (backB : Backed st0.bBond s.bsei.supply s.hub.reqB) (backS : Backed st0.sBond s.stsei.supply s.hub.reqS)
+    (hx : Sys.run 400 s [.wasm sender tokA (.tok tm) funds] = .ok s') :
+    (s'.bsei.supply + s'.hub.reqB = 0 ∨ st0.bRate ≤ rateOf s'.hub.bBond s'.bsei.supply s'.hub.reqB) ∧
+    (s'.stsei.supply + s'.hub.reqS = 0 ∨ st0.sRate ≤ rateOf s'.hub.sBond s'.stsei.supply s'.hub.reqS) ∧
+    s'.hub.bBond + s'.hub.sBond ≤ totalDelegated s' := by
+  simp only [Sys.run] at hx
+  split at hx
+  · cases hx
+  · rename_i s1 subs h1
+    have ch := handle_wasm_chain s s1 _ _ _ _ subs h1
+    obtain ⟨a1, a2, a3, a4, a5, a6⟩ := static_step s s1 _ subs h1 btok stok bwf swf bhub shub
+    have cok : ChainOK s1 := ⟨fun w hw => by rw [ch.1]; exact c.outside w hw,
+      fun w hw => by rw [ch.1]; rw [ch.2] at hw; exact c.unset w hw⟩
+    have fin : ∀ (pre : List Msg) (u : Addr) (a : Nat) (k : Hook) (tk : Addr), SamePools s s1 →
+        subs = pre ++ [Msg.wasm tk hubA (.hub (.receive u a k)) []] → AllStill pre →
+        ((s'.bsei.supply + s'.hub.reqB = 0 ∨ st0.bRate ≤ rateOf s'.hub.bBond s'.bsei.supply s'.hub.reqB) ∧
+         (s'.stsei.supply + s'.hub.reqS = 0 ∨ st0.sRate ≤ rateOf s'.hub.sBond s'.stsei.supply s'.hub.reqS) ∧
+         s'.hub.bBond + s'.hub.sBond ≤ totalDelegated s') := by
+      intro pre u a k tk sp hsub hpre
+      have inv : PInv s s1 (subs ++ []) :=
+        ⟨cok, sp, a1, a2, a3, a4, a5, a6, pre, tk, .receive u a k, [], by rw [hsub]; simp, hpre, Or.inr (Or.inr ⟨u, a, k, rfl⟩)⟩
+      exact reported_conclusion st0 s' (pending_run s st0 hst0 btok stok hd hz hz0 backB backS 399 s1 _ s' inv hx)
+    cases handle_touch s s1 _ subs h1 with
+    | none h hm' _ _ =>
+      rcases hm' with hm' | ⟨a, b, c', d, heq, ht⟩
+      · exact absurd rfl (hm' _ _ _ _)
+      · injection heq with _ e2 _ _
+        rcases ht with ht | ht <;> rcases htok with r | r <;> (rw [ht, r] at e2; cases e2)
+    | hub s2 sender' funds' hm' heq _ _ _ _ _ _ _ _ _ => injection heq with _ _ e3 _; cases e3
+    | bsei s2 sender' funds' tm' heq h1' hx' h t r dd g =>
+      injection heq with e1 e2 e3 e4
+      injection e3 with e3
+      subst e1; subst e3; subst e4
+      obtain ⟨pre, u, a, k, hsub, hpre⟩ := bsei_send_hook _ _ _ _ _ _ _ hsend hx'
+      have st := C18_bsei_step _ _ _ _ _ _ _ _ _ bwf hx'
+      have hsup := send_supply _ _ _ _ _ bwf hsend st.1
+      exact fin pre u a k bseiA ⟨by rw [h], by rw [h], by rw [h], by rw [h], by rw [h], by rw [h], by rw [h], by rw [h],
+        hsup, by rw [t], ch.1, ch.2⟩ hsub hpre
+    | stsei blk sender' funds' tm' heq hx' h b r dd g =>
+      injection heq with e1 e2 e3 e4
+      injection e3 with e3
+      subst e1; subst e3; subst e4
+      obtain ⟨pre, u, a, k, hsub, hpre⟩ := stsei_send_hook _ _ _ _ _ _ hsend hx'
+      have st := C18_stsei_step _ _ _ _ _ _ _ _ swf hx'
+      have hsup := send_supply _ _ _ _ _ swf hsend st.1
+      exact fin pre u a k stseiA ⟨by rw [h], by rw [h], by rw [h], by rw [h], by rw [h], by rw [h], by rw [h], by rw [h],
+        by rw [b], hsup, ch.1, ch.2⟩ hsub hpre
+    | reward s2 sender' funds' rm heq _ _ _ _ _ _ _ _ _ => injection heq with _ _ e3 _; cases e3
+    | disp env sender' funds' dm heq _ _ _ _ _ _ _ _ => injection heq with _ _ e3 _; cases e3
+    | reg s2 sender' funds' rm heq _ _ _ _ _ _ _ _ _ => injection heq with _ _ e3 _; cases e3
 
 /-! ### CheckSlashing, slash pending or not
 
